@@ -314,6 +314,14 @@ func ndAssert(fr *frame, a []value) value {
 		p.sv.send("(push 1)")
 		p.sv.send("(assert " + mkNot(t) + ")")
 		r := p.sv.checkSat()
+		if r == "unknown" {
+			r = p.solveFresh(mkNot(t))
+			if r == "sat" {
+				// need a model from the live session: re-ask with a longer budget is not possible; report inconclusive
+				p.ex.inconclusive("assertion " + id + " fails per a fallback solver but the session gave no model")
+				r = "fallback-sat"
+			}
+		}
 		switch r {
 		case "sat":
 			fail(false)
